@@ -243,11 +243,13 @@ func (f *SimpleGlyf) makeDict() (*dict.TrueType, error) {
 	isSymbolic := f.isSymbolic()
 
 	var dictEnc encoding.Simple
+	toUnicode := f.Simple.ToUnicode()
 	if isSymbolic {
 		// Use the built-in encoding, defined by a (1,0) "cmap" subtable which
 		// maps codes to a GIDs.
 
 		dictEnc = encoding.Builtin
+		toUnicode = f.Simple.ToUnicodeBuiltin()
 
 		subtable := sfntcmap.Format4{}
 		for code := range 256 {
@@ -351,7 +353,7 @@ func (f *SimpleGlyf) makeDict() (*dict.TrueType, error) {
 		Descriptor:     fd,
 		Encoding:       dictEnc,
 		Width:          widths,
-		ToUnicode:      f.Simple.ToUnicode(),
+		ToUnicode:      toUnicode,
 		FontFile:       sfntglyphs.ToStream(subsetFont, glyphdata.TrueType),
 	}
 
